@@ -29,6 +29,9 @@ pub enum Arg {
     Word(String),
     Key(u8),
     Long(u16),
+    /// valid UTF-8: `pad` ASCII bytes followed by `n` two-byte characters (a multi-byte character can
+    /// straddle any byte offset a truncation picks)
+    Utf8 { pad: u8, n: u8 },
 }
 
 impl Arg {
@@ -48,6 +51,11 @@ impl Arg {
             Arg::Word(w) => w.as_bytes().to_vec(),
             Arg::Key(k) => format!("key{}", k).into_bytes(),
             Arg::Long(n) => vec![b'x'; *n as usize],
+            Arg::Utf8 { pad, n } => {
+                let mut v = vec![b'a'; *pad as usize];
+                v.extend("\u{e9}".repeat(*n as usize + 1).into_bytes());
+                v
+            }
         })
     }
 }
@@ -69,10 +77,12 @@ fn arg() -> impl Strategy<Value = Arg> {
             Just("NOFLAG"), Just("FORCE"), Just("COMPRESS"), Just("v2"), Just("mycluster"), Just("PEER"), Just("CONFIG"),
             Just("migrating"), Just("importing"), Just("master"), Just("replica"), Just("127.0.0.1:7001"), Just("127.0.0.2:6000"),
             Just("GET"), Just("SET"), Just("nodes"), Just("slots"), Just("keyslot"), Just("0-16383"), Just("1"), Just("mgr_v2"),
+            Just("0-4294967295"), Just("0-18446744073709551615"), Just("16383-16384"), Just("9-1"), Just("16384-16390"), Just("slowlog_sample_rate"),
             Just("return 1"), Just("compression_strategy"), Just("allow_all"), Just("slowlog_log_slower_than"), Just("RESET"), Just("FUTURE"),
         ].prop_map(|s| Arg::Word(s.to_string())),
         4 => (0u8..6).prop_map(Arg::Key),
         1 => (1u16..5000).prop_map(Arg::Long),
+        2 => (0u8..130, 0u8..200).prop_map(|(pad, n)| Arg::Utf8 { pad, n }),
     ]
 }
 
@@ -85,12 +95,41 @@ const NAMES: &[&[&str]] = &[
     &["MGET"], &["MSET"], &["MSETNX"], &["DEL"], &["EXISTS"], &["BLPOP"], &["BRPOP"], &["BRPOPLPUSH"], &["BZPOPMIN"], &["BZPOPMAX"],
     &["GET"], &["SET"], &["SETEX"], &["PSETEX"], &["GETSET"], &["APPEND"], &["INCR"], &["LPUSH"], &["LPOP"], &["EXPIRE"],
     &["PING"], &["ECHO"], &["SELECT"], &["INFO"], &["HELLO"], &["COMMAND"], &["ASKING"], &["QUIT"], &[""],
+    // template (expanded by `template_cmd`): a well-formed SETCLUSTER whose local node carries a migration tag
+    // with a hostile slot range
+    &["UMCTL-SETCLUSTER-MIG"],
 ];
+
+const HOSTILE_RANGES: &[&str] = &[
+    "0-18446744073709551615", "0-4294967295", "16383-16384", "16384-16390", "9-1", "0-16383", "100-200", "18446744073709551615-18446744073709551615", "0-9223372036854775807", "16000-70000",
+];
+
+/// `UMCTL SETCLUSTER v2 <epoch> NOFLAG mycluster <node> migrating|importing 1 <range> <epoch> <4 addresses> [PEER ...]`
+/// with the choices derived from the generated arguments
+fn template_cmd(args: &[Arg]) -> Cmd {
+    let h = args.iter().filter_map(|a| a.bytes()).flatten().fold(args.len(), |a, b| a.wrapping_mul(31).wrapping_add(b as usize));
+    let range = HOSTILE_RANGES[h % HOSTILE_RANGES.len()];
+    let importing = (h / 16) % 2 == 1;
+    let (src_p, src_n, dst_p, dst_n) = if importing { ("127.0.0.2:6000", "127.0.0.2:7001", PROXY, NODE) } else { (PROXY, NODE, "127.0.0.2:6000", "127.0.0.2:7001") };
+    let mut c = cmd(&["UMCTL", "SETCLUSTER", "v2", "7", "NOFLAG", "mycluster", NODE, if importing { "importing" } else { "migrating" }, "1", range, "7", src_p, src_n, dst_p, dst_n]);
+    if (h / 32) % 2 == 1 {
+        c.extend(cmd(&["PEER", "127.0.0.2:6000", "1", HOSTILE_RANGES[(h / 64) % HOSTILE_RANGES.len()]]));
+    }
+    c
+}
 
 #[derive(Debug, Clone, Serialize, Deserialize)]
 pub enum Input {
     /// well-formed commands with generated arguments
-    Commands { with_meta: bool, compression: u8, cmds: Vec<(u16, Vec<Arg>)> },
+    Commands {
+        with_meta: bool,
+        compression: u8,
+        cmds: Vec<(u16, Vec<Arg>)>,
+        /// the connection first switches the slow log to "record every request" (CONFIG SET
+        /// slowlog_sample_rate 1, slowlog_log_slower_than -1) and reads it back at the end (UMCTL SLOWLOG GET)
+        #[serde(default)]
+        slowlog_all: bool,
+    },
     /// raw bytes on the connection
     Bytes { with_meta: bool, pieces: Vec<Piece> },
     /// the same kinds of input written in fragments on a real loopback TCP connection served by
@@ -151,10 +190,10 @@ fn is_blocking_name(n: u16) -> bool {
 pub fn tcp_strategy() -> impl Strategy<Value = Input> {
     (strategy(), prop::collection::vec(prop_oneof![2 => 1u16..8, 2 => 1u16..64, 1 => 64u16..4096], 0..6), prop_oneof![5 => Just(0u8), 3 => Just(1u8), 2 => Just(2u8)]).prop_map(|(inner, frags, close_mode)| {
         let inner = match inner {
-            Input::Commands { with_meta, compression, cmds } => {
+            Input::Commands { with_meta, compression, cmds, slowlog_all } => {
                 // a blocking command waits legitimately for as long as the client asked: not a wedge
                 let cmds: Vec<_> = cmds.into_iter().map(|(n, a)| if is_blocking_name(n) { (39u16, a) } else { (n, a) }).collect();
-                Input::Commands { with_meta, compression, cmds }
+                Input::Commands { with_meta, compression, cmds, slowlog_all }
             }
             other => other,
         };
@@ -164,8 +203,8 @@ pub fn tcp_strategy() -> impl Strategy<Value = Input> {
 
 pub fn strategy() -> impl Strategy<Value = Input> {
     prop_oneof![
-        3 => (any::<bool>(), 0u8..3, prop::collection::vec((0u16..NAMES.len() as u16, prop::collection::vec(arg(), 0..8)), 1..6))
-            .prop_map(|(with_meta, compression, cmds)| Input::Commands { with_meta, compression, cmds }),
+        3 => (any::<bool>(), 0u8..3, prop::collection::vec((prop_oneof![12 => 0u16..NAMES.len() as u16, 1 => Just(NAMES.len() as u16 - 1)], prop::collection::vec(arg(), 0..8)), 1..6), prop::bool::weighted(0.3))
+            .prop_map(|(with_meta, compression, cmds, slowlog_all)| Input::Commands { with_meta, compression, cmds, slowlog_all }),
         2 => (any::<bool>(), prop::collection::vec(piece(), 1..6)).prop_map(|(with_meta, pieces)| Input::Bytes { with_meta, pieces }),
     ]
 }
@@ -209,17 +248,30 @@ async fn setup(with_meta: bool, compression: u8) -> World {
 fn stream_of(input: &Input) -> Vec<u8> {
     match input {
         Input::Bytes { pieces, .. } => pieces.iter().flat_map(|p| p.bytes()).collect(),
-        Input::Commands { cmds, .. } => {
+        Input::Commands { cmds, slowlog_all, .. } => {
             let mut out = vec![];
+            if *slowlog_all {
+                for c in [cmd(&["CONFIG", "SET", "slowlog_sample_rate", "1"]), cmd(&["CONFIG", "SET", "slowlog_log_slower_than", "-1"])] {
+                    undermoon::protocol::resp_to_buf(&mut out, &cmd_to_resp(&c)).expect("encode");
+                }
+            }
             for (n, args) in cmds {
-                let mut c: Cmd = NAMES[*n as usize % NAMES.len()].iter().map(|s| s.as_bytes().to_vec()).collect();
-                for a in args {
-                    match a.bytes() {
-                        Some(b) => c.push(b),
-                        None => break,
+                let name = NAMES[*n as usize % NAMES.len()];
+                let mut c: Cmd = name.iter().map(|s| s.as_bytes().to_vec()).collect();
+                if name[0] == "UMCTL-SETCLUSTER-MIG" {
+                    c = template_cmd(args);
+                } else {
+                    for a in args {
+                        match a.bytes() {
+                            Some(b) => c.push(b),
+                            None => break,
+                        }
                     }
                 }
                 undermoon::protocol::resp_to_buf(&mut out, &cmd_to_resp(&c)).expect("encode");
+            }
+            if *slowlog_all {
+                undermoon::protocol::resp_to_buf(&mut out, &cmd_to_resp(&cmd(&["UMCTL", "SLOWLOG", "GET"]))).expect("encode");
             }
             out
         }
@@ -682,10 +734,14 @@ fn exec_once(input: &Input) -> Exec {
 fn describe(input: &Input) -> String {
     match input {
         Input::Tcp { inner, frags, close_mode } => format!("over loopback TCP in write fragments {:?}{}: {}", frags, ["", ", client disconnects without reading", ", client shuts down its sending direction and keeps reading"][*close_mode as usize % 3], describe(inner)),
-        Input::Commands { cmds, with_meta, compression } => {
+        Input::Commands { cmds, with_meta, compression, slowlog_all } => {
+            let slow = if *slowlog_all { " [slow log records every request; UMCTL SLOWLOG GET at the end]" } else { "" };
             let v: Vec<String> = cmds
                 .iter()
                 .map(|(n, args)| {
+                    if NAMES[*n as usize % NAMES.len()][0] == "UMCTL-SETCLUSTER-MIG" {
+                        return format!("[{}]", show_cmd(&template_cmd(args)));
+                    }
                     let mut s: Vec<String> = NAMES[*n as usize % NAMES.len()].iter().map(|x| x.to_string()).collect();
                     for a in args {
                         match a.bytes() {
@@ -696,7 +752,7 @@ fn describe(input: &Input) -> String {
                     format!("[{}]", s.join(" "))
                 })
                 .collect();
-            format!("commands (metadata set: {}, compression {}): {}", with_meta, compression, v.join(" "))
+            format!("commands (metadata set: {}, compression {}){}: {}", with_meta, compression, slow, v.join(" "))
         }
         Input::Bytes { pieces, with_meta } => {
             let total: usize = pieces.iter().map(|p| p.bytes().len()).sum();
@@ -807,7 +863,7 @@ pub fn check(input: &Input, obs: &mut Obs) -> Result<(), Fail> {
     }
 }
 
-pub const RULE: &str = "inputs executed in child worker processes (abort/stack overflow/refused allocation = observation): (a) byte streams: raw bytes over a RESP-biased alphabet, hostile length prefixes (*2^31, *2^62, $2^63-1, *-2, *10^9), nesting '*1\\r\\n' up to depth 200000, valid pipelines, truncations; (b) well-formed commands of every family the executor special-cases (UMCTL sub-commands, UMFORWARD, UMSYNC, CLUSTER, CONFIG, AUTH, EVAL/EVALSHA numkeys, MGET/MSET/MSETNX/DEL/EXISTS, B*POP timeouts, string commands with compression on) with arguments from {missing, empty, non-UTF-8, 0, -1, 2^62, 2^63-1, 2^64-1, 2^64, long digit strings, keywords, keys, long strings}, before and after metadata is set; fed through the real decoder and the real Session/ForwardHandler; oracle: process alive, no panic on any thread, peak live memory <= 16 MiB + 4096 x bytes received (a counting allocator refuses larger single requests), every request completes in bounded time (8 s wall, triple-confirmed; 3600 virtual s), a second connection still gets its PING answered; non-trivial = the input reached the executor or carries a hostile length prefix / nesting; distinct = hash of the input";
+pub const RULE: &str = "inputs executed in child worker processes (abort/stack overflow/refused allocation = observation): (a) byte streams: raw bytes over a RESP-biased alphabet, hostile length prefixes (*2^31, *2^62, $2^63-1, *-2, *10^9), nesting '*1\\r\\n' up to depth 200000, valid pipelines, truncations; (b) well-formed commands of every family the executor special-cases (UMCTL sub-commands incl. well-formed SETCLUSTER messages whose migration tags and peers carry hostile slot ranges (0-2^64-1, 16383-16384, 9-1, ...), UMFORWARD, UMSYNC, CLUSTER, CONFIG, AUTH, EVAL/EVALSHA numkeys, MGET/MSET/MSETNX/DEL/EXISTS, B*POP timeouts, string commands with compression on) with arguments from {missing, empty, non-UTF-8, 0, -1, 2^62, 2^63-1, 2^64-1, 2^64, long digit strings, keywords, keys, long strings, valid UTF-8 with two-byte characters at every alignment}, before and after metadata is set, 30 % with the slow log switched to record every request and read back at the end; fed through the real decoder and the real Session/ForwardHandler; oracle: process alive, no panic on any thread, peak live memory <= 16 MiB + 4096 x bytes received (a counting allocator refuses larger single requests), every request completes in bounded time (8 s wall, triple-confirmed; 3600 virtual s), a second connection still gets its PING answered; non-trivial = the input reached the executor or carries a hostile length prefix / nesting; distinct = hash of the input";
 
 pub const RULE_TCP: &str = "[tcp] the same input classes (blocking commands excluded) written in generated fragments (1 B .. 4 KiB) on a real loopback TCP connection (30 %: the client disconnects right after writing, without reading; 20 %: it shuts down its sending direction and keeps reading) accepted by a loop that spawns the real handle_session per connection, in child worker processes; oracle: every complete request that precedes any malformed or incomplete data is answered, or the connection is closed, within 6 s wall (three attempts in fresh worlds before it counts); a PING on a second TCP connection is answered while the first is still open; after the clients disconnect both session tasks end; no panic on any thread, process alive, memory bound as above; non-trivial = at least one reply arrived or the input carries a hostile length prefix / nesting";
 
